@@ -85,6 +85,7 @@ class Ctx:
         }
         self._nontrivial = set()
         self.violations = []
+        self.deferred = []
         self.known_hits = {}
         self.assumptions = []
         self.notes = []
@@ -159,6 +160,12 @@ class Ctx:
     def inconclusive(self, msg):
         raise Inconclusive(msg)
 
+    def defer_inconclusive(self, msg):
+        """Records that a phase was inconclusive but lets the remaining phases run: a violation found by
+        another phase is still reported (exit 1); otherwise the run ends inconclusive (exit 2)."""
+        self.deferred.append(msg)
+        self.log("phase inconclusive (continuing): " + msg.splitlines()[0][:200])
+
     def finish(self, level="model_checking"):
         if self._repo_status0 is not None and self._repo_status() != self._repo_status0:
             print("INCONCLUSIVE property=%s /repo working tree was modified by the check" % self.prop)
@@ -188,6 +195,10 @@ class Ctx:
         self.cleanup()
         if self.violations:
             return 1
+        if self.deferred:
+            for m in self.deferred:
+                print("INCONCLUSIVE property=%s: %s" % (self.prop, m))
+            return 2
         print("OK property=%s tier=%s seed=%d states=%d traces=%d evaluations=%d nontrivial=%d wall=%.1fs" % (
             self.prop, self.tier, self.seed, cov["states"], cov["traces_validated_against_impl"],
             cov["evaluations"], cov["distinct_nontrivial"], time.time() - self.t0))
